@@ -6,6 +6,10 @@ STD_ASSUME = ["the Lean model is tied to /repo by the T1 extractor and the T2 co
 HOOK_COMMITS = ["9665c83 verif hooks: yield points in the sse delivery goroutine and handler exit path"]
 
 PROPS = {
+    "C08": {"claimed": False, "na_reason": "differential check built (format, then parse + generate + gofmt, compare); printer/reparse model and theorems not yet built",
+            "model_modules": [], "proof_modules": [], "rule": "repo templates + grammar-generated templates", "search_rounds": 0},
+    "C09": {"claimed": False, "na_reason": "differential check built (format twice, compare); printer/reparse model and theorems not yet built",
+            "model_modules": [], "proof_modules": [], "rule": "repo templates + grammar-generated templates", "search_rounds": 0},
     "C11": {
         "claimed": True,
         "model_modules": ["TemplVerif.Model.Handler"],
